@@ -227,6 +227,11 @@ func init() {
 					if ca := geo.Area(coll); !(math.Abs(ca-(pa+want+a0)) <= 6*tolA+1e-9*(2*a0+want)) {
 						c.Fail("", "collection area is not the sum of its members", map[string]interface{}{"got": ca, "want": pa + want + a0})
 					}
+					// the box once more, as a Bound value among the members (also nested)
+					collB := orb.Collection{closed, box, orb.Collection{box}}
+					if ca := geo.Area(collB); !(math.Abs(ca-(2*want+a0)) <= 6*tolA+1e-9*(a0+2*want)) {
+						c.Fail("", "a bound among the members of a collection does not count with the area of the box it denotes", map[string]interface{}{"collection": sv(collB), "got": ca, "want": 2*want + a0})
+					}
 					c.Evals(2)
 					// --- lengths are sums of segment distances
 					ls := orb.LineString(open)
